@@ -378,7 +378,7 @@ VALID_SEEDS = [
 ]
 SOUP = ['!(', '?(', '*(', '@(', '+(', ')', '|', 'a', 'b', 'A', '*', '**', '***', '?', '/', '//', '.', '..', '[', ']', '[!', '[^', '\\',
         '\\\\', '-', '{', '}', ',', '..', '~', '!', '1', '9', '[:alpha:]', '[:x:]', '\\x', '\\x41', '\\u', '\\N{', '\\N{DIGIT ONE}',
-        '\\U00110000', '\\0', '\\777', '\n', ' ', '\x00', '\xe9', 'c:', '^', '&', '&&', '||', '~~', '--', '\\/', '\\.', '$', '(?#)', '?:', '#', '(?', '\\Z', '(?i:']
+        '\\U00110000', '\\UFFFFFFFF', '\\U80000000', '\\uD800', '\\UFFFFFFF', '\\xff', '\\0', '\\777', '\n', ' ', '\x00', '\xe9', 'c:', '^', '&', '&&', '||', '~~', '--', '\\/', '\\.', '$', '(?#)', '?:', '#', '(?', '\\Z', '(?i:']
 FS_UNSAFE = ('FOLLOW',)
 
 
